@@ -11,6 +11,7 @@ from __future__ import annotations
 
 import os
 import signal
+import sys
 import time
 
 import z3
@@ -33,6 +34,16 @@ class Unsupported(EngineSignal):
 
 class StepBudget(EngineSignal):
     """Fork/step budget of a path exhausted: candidate non-termination."""
+
+
+class Nondeterminism(EngineSignal):
+    """Re-execution of the body took a different decision sequence than recorded: harness error."""
+
+
+def _show(c):
+    if type(c) is SAtom:
+        return "atom(cp%d in %s)" % (c.cid, str(c.ivs)[:80])
+    return str(c.e if isinstance(c, SBool) else c)[:160]
 
 
 class Deadline(EngineSignal):
@@ -120,7 +131,7 @@ class SBool:
     __ror__ = __or__
 
     def __invert__(self):
-        return mk_bool(z3.Not(self.e))
+        return b_not(self)
 
     def __eq__(self, o):
         if isinstance(o, (bool, SBool)):
@@ -180,6 +191,28 @@ class SAtom(SBool):
 ATOM_BY_EID: dict = {}
 
 
+class SNeg(SBool):
+    """Negation of an SAtom (keeps the atom visible to the interval pre-solver)."""
+
+    __slots__ = ("inner",)
+
+    def __init__(self, inner):
+        self._e = None
+        self.inner = inner
+
+    @property
+    def e(self):
+        if self._e is None:
+            self._e = z3.Not(self.inner.e)
+        return self._e
+
+    def __bool__(self):
+        return not ENGINE.branch(self.inner)
+
+    def __invert__(self):
+        return self.inner
+
+
 def b_and(*xs):
     conj = []
     for x in xs:
@@ -209,6 +242,10 @@ def b_or(*xs):
 def b_not(x):
     if isinstance(x, bool):
         return not x
+    if type(x) is SAtom:
+        return SNeg(x)
+    if type(x) is SNeg:
+        return x.inner
     return mk_bool(z3.Not(x.e))
 
 
@@ -468,8 +505,15 @@ class Engine:
     def _check(self, *assumptions):
         t = time.perf_counter()
         r = self.solver.check(*assumptions)
-        self.stats["solver_s"] += time.perf_counter() - t
+        dt = time.perf_counter() - t
+        self.stats["solver_s"] += dt
         self.stats["checks"] += 1
+        if r == z3.unknown:
+            self.stats["unknown"] = self.stats.get("unknown", 0) + 1
+        if dt > 2.0:
+            self.stats["slow_checks"] = self.stats.get("slow_checks", 0) + 1
+            if os.environ.get("SYMX_DEBUG"):
+                print("SLOW CHECK %.1fs -> %s: %s" % (dt, r, [str(a)[:300] for a in assumptions]), file=sys.stderr)
         return r
 
     def assume_base(self, e, unary_cp=None, ivs=None):
@@ -538,7 +582,11 @@ class Engine:
                 return v[0]
             if not assume and z3.is_not(c):
                 return not self.branch(c.arg(0), payload=payload)
-            atom = ATOM_BY_EID.get(eid)
+            # NOTE: a generic expression is never re-interpreted as an atom, even if it is
+            # structurally identical to one: whether an atom's term has been built already depends
+            # on history (laziness), and decisions must not depend on that (determinism of re-execution
+            # and of prefix hand-over between worker processes).
+            atom = None
             key = eid
             meta = None
         dom_fork = False
@@ -590,13 +638,19 @@ class Engine:
         else:
             ok = self._check(z3.Not(e) if expect else e) == z3.unsat
         if not ok:
-            raise RuntimeError("symx: interval pre-solver disagrees with z3 on %s (expected %s)" % (e, "both" if both else expect))
+            self.stats["engine_inconsistency"] = self.stats.get("engine_inconsistency", 0) + 1
+            raise Nondeterminism("symx: interval pre-solver disagrees with z3 on %s (expected %s)" % (str(e)[:200], "both" if both else expect))
 
     def _branch_general(self, c, key, meta, assume, payload, dom_fork=False) -> bool:
         d = self.depth
         if d < len(self.trace):
             self.depth = d + 1
             t = self.trace[d]
+            t0 = t[0]
+            if t0 is not c:
+                k0 = t0.key if type(t0) is SAtom else (t0.e.get_id() if isinstance(t0, SBool) else t0.get_id())
+                if k0 != key:
+                    raise Nondeterminism("re-execution diverged at decision %d: %s vs %s" % (d, _show(t0), _show(c)))
             self._learn(c, key, t[1], meta, t[3])
             return t[1]
         self.forks += 1
@@ -611,6 +665,13 @@ class Engine:
                 code = code[0]
             taken = bool(code & 1)
             forked = bool(code & 2)
+            if self.paranoid >= 3:
+                e_ = c.e if isinstance(c, SBool) else c
+                rt_ = self._check(e_ if taken else z3.Not(e_))
+                ro_ = self._check(z3.Not(e_) if taken else e_)
+                if rt_ != z3.sat or (ro_ == z3.sat) != forked:
+                    self.stats["engine_inconsistency"] = self.stats.get("engine_inconsistency", 0) + 1
+                    print("PARANOID3: prefix decision %d (%s) code=%r: taken side %s, other side %s; trace so far %r" % (d, _show(c), code, rt_, ro_, self._codes(len(self.trace))), file=sys.stderr, flush=True)
             if forked:
                 self.solver.push()
                 self.solver.add(self._constraint(c, taken, meta))
@@ -665,6 +726,14 @@ class Engine:
             self.trace.append([c, taken, True, True, om, payload, meta, neg])
             self.stats["forks"] += 1
         else:
+            if self.paranoid >= 2:
+                s2 = z3.Solver()
+                s2.add(*self.solver.assertions())
+                s2.add(other)
+                r2 = s2.check()
+                if r2 != z3.unsat:
+                    print("PARANOID: incremental solver says unsat, fresh solver says %s for %s; assertions=%d" % (r2, str(other)[:200], len(self.solver.assertions())), file=sys.stderr, flush=True)
+                    self.stats["engine_inconsistency"] = self.stats.get("engine_inconsistency", 0) + 1
             self.trace.append([c, taken, False, False, None, payload, meta, None])
             self.stats["forced"] += 1
         self.depth = d + 1
@@ -727,18 +796,44 @@ class Engine:
                 return True
             if r == z3.unknown:
                 raise Unsupported("solver unknown (obligation %s)" % label)
-            self.candidates.append(Candidate(label, self.witness(self.solver.model()), detail))
+            m = self._fresh_confirm(z3.Not(cond.e))
+            if os.environ.get("SYMX_DEBUG"):
+                detail += " PREFIX=%r START_PREFIX_LEN=%d" % (self._codes(len(self.trace)), len(self.prefix))
+            self.candidates.append(Candidate(label, self.witness(m), detail))
             raise PathStop()
         if cond:
             self.stats["discharged"] += 1
             return True
-        self.candidates.append(Candidate(label, self.witness(), detail))
+        if os.environ.get("SYMX_DEBUG"):
+            detail += " PREFIX=%r START_PREFIX_LEN=%d" % (self._codes(len(self.trace)), len(self.prefix))
+        m = self._fresh_confirm()
+        self.candidates.append(Candidate(label, self.witness(m), detail))
         raise PathStop()
+
+    def _fresh_confirm(self, extra=None):
+        """Re-decide the path condition (plus `extra`) with a fresh, non-incremental solver and
+        return its model; guards candidates against incremental-solver artefacts."""
+        s2 = z3.Solver()
+        s2.set("timeout", 30000)
+        s2.add(*self.solver.assertions())
+        if extra is not None:
+            s2.add(extra)
+        r = s2.check()
+        self.stats["checks"] += 1
+        if r == z3.sat:
+            return s2.model()
+        if r == z3.unknown:
+            raise Unsupported("fresh solver unknown while confirming a candidate")
+        self.stats["engine_inconsistency"] = self.stats.get("engine_inconsistency", 0) + 1
+        raise Unsupported("incremental and fresh solver disagree on the feasibility of a candidate path")
 
     def fail(self, label, detail=""):
         """Unconditional failure of this path class (e.g. unexpected exception)."""
         self.stats["obligations"] += 1
-        self.candidates.append(Candidate(label, self.witness(), detail))
+        m = self._fresh_confirm()
+        if os.environ.get("SYMX_DEBUG"):
+            detail += " PREFIX=%r START_PREFIX_LEN=%d" % (self._codes(len(self.trace)), len(self.prefix))
+        self.candidates.append(Candidate(label, self.witness(m), detail))
         raise PathStop()
 
     def cp_value(self, cp_id):
